@@ -220,6 +220,8 @@ func (g *gen) run() {
 			// let the unbonding period pass
 			g.blockDt(g.run_.w.ubtime + int64(r.Intn(3))*5 - 5)
 			g.sawMature = true
+		case k < 83:
+			g.supersede(m)
 		default:
 			g.block(1 + r.Intn(3))
 		}
@@ -241,6 +243,40 @@ func (g *gen) run() {
 		}
 	}
 	g.block(1)
+}
+
+// supersede: two oracle sets alive at once and the newer one adopted by the external chain.  An online oracle raises its
+// stake to the maximum (power change: the end blocker requests a new oracle set inside the signed window of the latest
+// one), the diligent oracles confirm both, the newest stored set is observed through the real claim path
+// (LastObservedOracleSet above the older ones) and the end blocker runs block by block across height+window and
+// height+window+1 of the older sets (slashing, then pruning).  The monitor keeps its own record of accepted confirms.
+func (g *gen) supersede(m int) {
+	// two power changes in consecutive blocks (two different online oracles raise their stake to the maximum): oracle
+	// set N at height h, oracle set N+1 at h+1, both inside each other's window whatever the window (2..4)
+	raised := 0
+	used := map[int]bool{}
+	for round := 0; round < 2; round++ {
+		v := g.view(m)
+		max := new(big.Int).Mul(v.Threshold, big.NewInt(v.Multiple))
+		for _, c := range v.Recs {
+			if c.Online && c.A >= 0 && c.A < nOracles && !used[c.A] && v.inProp(c.A) && !g.govRemoved[m][c.A] && max.Cmp(c.Amount) > 0 {
+				used[c.A] = true
+				if g.do(Op{K: "add", M: m, A: c.A, Amt: new(big.Int).Sub(max, c.Amount).String()}) == 0 {
+					raised++
+				}
+				break
+			}
+		}
+		g.block(1)
+	}
+	v := g.view(m)
+	if len(v.Sets) == 0 {
+		return
+	}
+	if g.do(Op{K: "observeset", M: m, N: v.Sets[len(v.Sets)-1].N}) == 0 && raised > 0 && len(v.Sets) > 1 {
+		g.run_.rep.Count("oracle-set-superseded-and-observed")
+	}
+	g.block(int(v.Window) + 2)
 }
 
 // editOp: MsgEditBridger by a (preferably online) oracle; the new bridger is, with real probability each, the
